@@ -40,8 +40,8 @@ CHECKS["C27"] = dict(
     gen=dict(
         quick=[dict(mode="edges", spec="RouteTableGen.tla", cfg="RouteTableGenEdges.cfg", depth=3, max=110, name="edges"),
                dict(mode="sim", spec="RouteTableGen.tla", cfg="RouteTableGenSim.cfg", depth=14, num=10, max=60, name="walks")],
-        thorough=[dict(mode="edges", spec="RouteTableGen.tla", cfg="RouteTableGenEdges.cfg", depth=5, max=2500, name="edges", timeout=1200),
-                  dict(mode="sim", spec="RouteTableGen.tla", cfg="RouteTableGenSim.cfg", depth=25, num=80, max=800, name="walks")]),
+        thorough=[dict(mode="edges", spec="RouteTableGen.tla", cfg="RouteTableGenEdges.cfg", depth=4, max=700, name="edges", timeout=1200),
+                  dict(mode="sim", spec="RouteTableGen.tla", cfg="RouteTableGenSim.cfg", depth=25, num=40, max=300, name="walks")]),
     post_gen=_c27_post,
     judge=dict(spec="RouteTableTrace.tla", cfg="RouteTableTrace.cfg"),
     corrupt=corrupt_field("save", "stored", lambda e: [] if e.get("stored") else None),
@@ -96,12 +96,14 @@ CHECKS["C28"] = dict(
     gen=dict(
         quick=[dict(mode="edges", spec=_GEN, cfg="RouteDiscoveryGenEdges.cfg", depth=30, max=60, name="edges-small4"),
                dict(mode="sim", spec=_GEN, cfg="RouteDiscoveryGenSim.cfg", depth=40, num=40, max=50, dedup=True, name="walks-iso4"),
+               dict(mode="sim", spec=_GEN, cfg="RouteDiscoveryGenSimT2.cfg", depth=40, num=15, max=20, dedup=True, salt=4, name="walks-ttl2"),
                dict(mode="sim", spec=_GEN, cfg="RouteDiscoveryGenSim5.cfg", depth=50, num=15, max=20, dedup=True, salt=3, name="walks-n5")],
         thorough=[dict(mode="edges", spec=_GEN, cfg="RouteDiscoveryGenEdges.cfg", depth=30, name="edges-small4"),
-                  dict(mode="edges", spec=_GEN, cfg="RouteDiscoveryGenEdgesA1.cfg", depth=30, max=1200, name="edges-iso4-a1", timeout=1200),
-                  dict(mode="sim", spec=_GEN, cfg="RouteDiscoveryGenSim.cfg", depth=40, num=600, max=700, dedup=True, name="walks-iso4"),
-                  dict(mode="sim", spec=_GEN, cfg="RouteDiscoveryGenSimA1.cfg", depth=50, num=300, max=350, dedup=True, salt=2, name="walks-all4-a1"),
-                  dict(mode="sim", spec=_GEN, cfg="RouteDiscoveryGenSim5.cfg", depth=60, num=300, max=350, dedup=True, salt=3, name="walks-n5")]),
+                  dict(mode="edges", spec=_GEN, cfg="RouteDiscoveryGenEdgesA1.cfg", depth=30, max=500, name="edges-iso4-a1", timeout=1200),
+                  dict(mode="sim", spec=_GEN, cfg="RouteDiscoveryGenSim.cfg", depth=40, num=300, max=350, dedup=True, name="walks-iso4"),
+                  dict(mode="sim", spec=_GEN, cfg="RouteDiscoveryGenSimA1.cfg", depth=50, num=150, max=170, dedup=True, salt=2, name="walks-all4-a1"),
+                  dict(mode="sim", spec=_GEN, cfg="RouteDiscoveryGenSimT2.cfg", depth=40, num=100, max=120, dedup=True, salt=4, name="walks-ttl2"),
+                  dict(mode="sim", spec=_GEN, cfg="RouteDiscoveryGenSim5.cfg", depth=60, num=150, max=170, dedup=True, salt=3, name="walks-n5")]),
     judge=dict(spec="RouteDiscoveryTrace.tla", cfg="RouteDiscoveryTrace.cfg"),
     corrupt=_c28_corrupt,
     nontrivial=lambda s: any(o["op"] == "find" for o in s["ops"]) and sum(1 for o in s["ops"] if o["op"] == "deliver") >= 2,
@@ -113,5 +115,88 @@ CHECKS["C28"] = dict(
                  "the neighbour relation does not change during a scenario",
                  "kademlia's neighbourhood depth is 0 in these small networks (logged per scenario)",
                  "the bound on messages is MsgBound = finds * sum_{k=1..TTL+1} alpha^k * (2+alpha) + injects * |nodes|"],
+    driver_timeout=1500,
+)
+
+
+# ------------------------------------------------------------------------------------ C38
+def _c38_post(scs, seed, tier):
+    """flooding scenarios: some overlay links (seeded) lead to peers that are not direct neighbours, so the peer sits in
+    the kept list and copies travel over a relayed stream; the flooding model does not distinguish the two lists"""
+    import random
+    rnd = random.Random(seed * 977 + 5)
+    for s in scs:
+        par = s.setdefault("par", {})
+        if par.get("kind") == "flood":
+            far = []
+            for a, b in par.get("links", []):
+                for x, y in ((a, b), (b, a)):
+                    if rnd.random() < 0.2:
+                        far.append([x, y])
+            par["far"] = far
+    return scs
+
+
+def _c38_corrupt(evs):
+    """binding self-test: a connected peer that is not a neighbour (membership) or a second notification (flooding)"""
+    for i, e in enumerate(evs):
+        if e.get("kind") == "member" and e.get("op") not in (None, "reset"):
+            for g in e.get("groups", []):
+                if g["ex"]:
+                    g["conn"] = sorted(set(g["conn"]) | {97})
+                    return i
+        if e.get("kind") == "flood" and e.get("op") == "deliver" and e.get("notified"):
+            e["notified"] = e["notified"] + e["notified"]
+            return i
+    return None
+
+
+_MG = "MulticastGen.tla"
+CHECKS["C38"] = dict(
+    modules=["multicast"], level="model_checking", driver="mcastdrv",
+    design_ref="5 (C38)",
+    technique="TLA+ model of group membership (add/remove/pruneKnown reached through notify, handshake, peer-state events) and of "
+              "multi-node flooding with per-node de-duplication windows, checked by TLC; TLC-generated histories/behaviours replayed "
+              "on real multicast.Service instances (harness streamer, kademlia mock, route-table fake); trace judged by the TLA+ trace spec",
+    level_text="TLC exhausts Multicast.tla: membership over 2-3 peers x 1-2 groups (invariant MembershipOK: lists pairwise disjoint, "
+               "connected subset of neighbours; prune bound) and flooding on the six connected 4-node overlays (thorough: every overlay on 3 "
+               "nodes, any subset joined, two messages, window expiry, loss) for DeliveredAtMostOncePerWindow, ForwardedAtMostOncePerWindow, "
+               "NotBackToSender, FloodBounded and the liveness property FloodQuiesces. TLC-generated membership histories run on one real "
+               "Service (notify and handshake handlers, outgoing handshake, disconnect events, bare transitions, fills over the real "
+               "threshold of 20); TLC-generated flooding behaviours are forced on 3-4 real Services in one process, each with its own "
+               "instance of the package-global cache; every step is judged by MulticastTrace.tla",
+    level_note="trusted: TLC; harness streamer / SubPub recorder / route-table fake (IsNeighbor) / wrapped kademlia mock; the verif "
+               "accessor of the three lists; per-node cache instances selected through the hook (production: one process per node); "
+               "window expiry is bound to clearing the node's cache (the one-minute constant is not waited for). Not modelled: "
+               "forwarding through other groups when a node does not hold the group (getForwardNodes), discovery (findGroup), gcGroup",
+    design=[dict(spec="MCMulticast.tla", cfg="MCMulticastMember.cfg", workers=8, timeout=900),
+            dict(spec="MCMulticast.tla", cfg="MCMulticastFlood.cfg", workers=8, timeout=900),
+            dict(spec="MCMulticast.tla", cfg="MCMulticastMember3.cfg", workers=8, timeout=1200, thorough_only=True),
+            dict(spec="MCMulticast.tla", cfg="MCMulticastFlood3.cfg", workers=8, timeout=1200, thorough_only=True),
+            dict(spec="MCMulticast.tla", cfg="MCMulticastFlood4.cfg", workers=8, timeout=1500, thorough_only=True)],
+    gen=dict(
+        quick=[dict(mode="edges", spec=_MG, cfg="MulticastGenMemberEdges.cfg", depth=3, max=120, name="member-edges"),
+               dict(mode="sim", spec=_MG, cfg="MulticastGenMemberSim.cfg", depth=12, num=6, max=40, name="member-walks"),
+               dict(mode="sim", spec=_MG, cfg="MulticastGenFill.cfg", depth=8, num=4, max=25, salt=1, name="member-fill"),
+               dict(mode="edges", spec=_MG, cfg="MulticastGenFloodEdges.cfg", depth=20, max=80, name="flood-edges"),
+               dict(mode="sim", spec=_MG, cfg="MulticastGenFloodSim.cfg", depth=40, num=60, max=60, dedup=True, salt=2, name="flood-walks")],
+        thorough=[dict(mode="edges", spec=_MG, cfg="MulticastGenMemberEdges.cfg", depth=3, max=1200, name="member-edges", timeout=1200),
+                  dict(mode="sim", spec=_MG, cfg="MulticastGenMemberSim.cfg", depth=20, num=20, max=400, name="member-walks"),
+                  dict(mode="sim", spec=_MG, cfg="MulticastGenFill.cfg", depth=12, num=15, max=150, salt=1, name="member-fill"),
+                  dict(mode="edges", spec=_MG, cfg="MulticastGenFloodEdges.cfg", depth=20, max=700, name="flood-edges", timeout=1200),
+                  dict(mode="sim", spec=_MG, cfg="MulticastGenFloodSim.cfg", depth=50, num=600, max=600, dedup=True, salt=2, name="flood-walks")]),
+    post_gen=_c38_post,
+    judge=dict(spec="MulticastTrace.tla", cfg="MulticastTrace.cfg"),
+    corrupt=_c38_corrupt,
+    nontrivial=lambda s: (s.get("par", {}).get("kind") == "member" and sum(1 for o in s["ops"] if o["op"] in ("notify", "handshake", "add", "remove", "disconnect", "fill")) >= 2)
+                         or (s.get("par", {}).get("kind") == "flood" and any(o["op"] == "deliver" for o in s["ops"])),
+    rule="membership: TLC histories of connect/disconnect/notify/handshake(in,out)/add/remove/prune/fill (edges over 2 peers x 2 groups, "
+         "walks over 3 peers x 2 groups, fills around the threshold 20); flooding: TLC behaviours (overlay, joined set, originations, "
+         "delivery order, losses, window expiries) ending with an empty network; distinct = distinct (parameters, step sequence); "
+         "non-trivial = two membership-changing steps, resp. at least one delivery",
+    exhaustive=dict(quick=False, thorough=False),
+    assumptions=["a disconnect is observed after the service has handled the peer-state event (events are handled in order; the driver waits for it)",
+                 "window expiry = the node's de-duplication cache is emptied",
+                 "every node of a flooding scenario holds the group (joined or observing)"],
     driver_timeout=1500,
 )
